@@ -58,7 +58,23 @@ func genConfig(t *rapid.T, o cfgGenOpts) Config {
 	c.PrimSize = sizeChoices[weighted(t, "primsize", sw)]
 	c.FileCache = []int{0, 1, 2, 512}[weighted(t, "filecache", []int{2, 2, 2, 4})]
 	c.Sync = weighted(t, "syncOnFlush", []int{4, 1}) == 1
+	if weighted(t, "highFileNumbers", []int{7, 1}) == 1 {
+		// A long-lived store: file numbers so high that positions exceed 32 bits.
+		c.StartPrim = startFileFor(c.PrimSize, rapid.IntRange(0, 2).Draw(t, "startPrimDelta"))
+		c.StartIdx = startFileFor(c.IdxSize, rapid.IntRange(0, 2).Draw(t, "startIdxDelta"))
+	}
 	return c
+}
+
+// startFileFor returns a file number next to the one at which
+// fileNumber x fileSize reaches 2^32 (capped at 2^31).
+func startFileFor(size uint32, delta int) uint32 {
+	sz := effectiveSize(size)
+	n := (uint64(1)<<32+sz-1)/sz - 1 + uint64(delta)
+	if n > 1<<31 {
+		n = 1 << 31
+	}
+	return uint32(n)
 }
 
 var chunkBoundaryBuckets = []uint32{4095, 4096, 4097, 8191, 8192, 8193, 12287, 12288, 12290}
@@ -85,6 +101,11 @@ func genKeys(t *rapid.T, cfg Config, minKeys, maxKeys int) []KeySpec {
 		// work in chunks, and the first/last bucket of a chunk is a boundary
 		// that uniformly drawn keys practically never hit.
 		setBucket(base, cfg.Bits, chunkBoundaryBuckets[rapid.IntRange(0, len(chunkBoundaryBuckets)-1).Draw(t, "boundaryBucket")])
+	} else if weighted(t, "tableEdge", []int{5, 1}) == 1 {
+		// The first and the last buckets of the table (loops over the table
+		// end there).
+		last := uint32(1)<<cfg.Bits - 1
+		setBucket(base, cfg.Bits, []uint32{0, 1, last - 1, last, last}[rapid.IntRange(0, 4).Draw(t, "edgeBucket")])
 	}
 	nGroups := 1 + weighted(t, "groups", []int{5, 4, 2})
 	prefixes := make([][]byte, nGroups)
@@ -95,6 +116,15 @@ func genKeys(t *rapid.T, cfg Config, minKeys, maxKeys int) []KeySpec {
 		p[bit/8] ^= 1 << (bit % 8)
 		prefixes[g] = p
 	}
+	// A common stem behind the bucket bytes: in a third of the pools all keys
+	// of a group agree on a drawn number of further bytes, so that the first
+	// differing byte of two keys lies anywhere in the key, also far behind the
+	// bucket bytes (small alphabets alone make keys differ within the first
+	// few bytes).
+	var stem []byte
+	if coreLen > 5 && weighted(t, "stem", []int{2, 1}) == 1 {
+		stem = rapid.SliceOfN(rapid.Byte(), 1, coreLen-5).Draw(t, "stembytes")
+	}
 	seen := map[string]bool{}
 	var keys []KeySpec
 	for i := 0; i < n; i++ {
@@ -103,6 +133,7 @@ func genKeys(t *rapid.T, cfg Config, minKeys, maxKeys int) []KeySpec {
 			g = rapid.IntRange(0, nGroups-1).Draw(t, "group")
 		}
 		d := append([]byte{}, prefixes[g]...)
+		d = append(d, stem...)
 		for len(d) < coreLen {
 			var b byte
 			if alpha == 256 {
